@@ -687,7 +687,9 @@ func main() {
 	}
 	b.WriteString("].\n")
 	b.WriteString("Definition gen_ctors : list gen_ctor := [gen_Association; gen_Array; gen_Catalog; gen_List; gen_Map; gen_Queue; gen_Set; gen_Stack].\n")
-	if err := os.WriteFile(os.Args[2], []byte(b.String()), 0o644); err != nil {
+	if old, err := os.ReadFile(os.Args[2]); err == nil && string(old) == b.String() {
+		// unchanged: leave the file (and its time stamp) alone, so that nothing that depends on it is compiled again
+	} else if err := os.WriteFile(os.Args[2], []byte(b.String()), 0o644); err != nil {
 		fmt.Fprintln(os.Stderr, "gomodule:", err)
 		os.Exit(2)
 	}
